@@ -202,8 +202,26 @@ theorem lp_speed_counterexample :
   refine ⟨by decide, by decide, by decide +kernel, ?_⟩
   refine ⟨((Pdu.lp lpSpeedWitness).asBytes.toOption.getD []), by decide +kernel, by decide +kernel, by decide +kernel⟩
 
+/-- the failing set, exactly: for in-range GPS values whose speed is written the way `repr` writes a
+float (`Dec.canonical`), the record has the 40 octets the parser insists on if and only if the speed
+fits — i.e. the finding is "speed ≠ 0 whose repr is not `d.d`", nothing else in the record can
+overflow -/
+theorem lp_speed_failing_set (g : Gps) (h : g.WF) (hc : g.speed.canonical) :
+    g.asBytes.length = 40 ↔ g.speedFits := by
+  rw [gps_length g h, ← show (fmtSpeed g.speed).length = 3 ↔ g.speedFits from fmtSpeed_length_iff g.speed hc]
+  omega
+
+/-- … and when it does not fit, `GPSData.from_bytes` rejects the record as a whole (`assert len == 40`);
+`LocationProtocol.from_bytes` instead cuts the payload to 40 octets and reads a truncated direction —
+the counter-example above -/
+theorem lp_speed_overflow_rejected (g : Gps) (h : g.WF) (hc : g.speed.canonical) (hs : ¬ g.speedFits) :
+    Gps.fromBytes g.asBytes = .error .assertion := by
+  have : g.asBytes.length ≠ 40 := fun h40 => hs ((lp_speed_failing_set g h hc).mp h40)
+  simp [Gps.fromBytes, this, bind, Except.bind, throw, throwThe, MonadExceptOf.throw]
+
 /-! ## non-vacuity -/
 
+example : lpSpeedWitness.gps.WF ∧ lpSpeedWitness.gps.speed.canonical ∧ ¬ lpSpeedWitness.gps.speedFits := by decide
 example : (Pdu.rrs ⟨true, rrsRadioRegistrationAnswer, ⟨10, 80⟩, rrsResultSuccess, 3600, rrsStateOnline⟩).WF := by decide
 example : (Pdu.lp ⟨true, lpStandardReport, 1, ⟨10, 2167005⟩, 0,
     ⟨true, some (18, 36, 48), some (26, 10, 15), true, 47188051, true, 18544387, ⟨0, [1]⟩, 121⟩⟩).WF := by decide
